@@ -13,18 +13,21 @@ import sys
 HERE = os.path.dirname(os.path.abspath(__file__))
 VERIF = os.path.dirname(HERE)
 M = json.load(open(os.path.join(HERE, "mutants.json")))
+# SENS_REPO=<scratch worktree of /repo>: mutate that tree and point the checks at it (VERIF_REPO) instead of touching /repo
+REPO = os.environ.get("SENS_REPO", "/repo")
+ENV = dict(os.environ, VERIF_REPO=REPO) if REPO != "/repo" else dict(os.environ)
 
 
 def main():
     want = set(a.upper() for a in sys.argv[1:])
-    if subprocess.run(["git", "-C", "/repo", "status", "--porcelain", "--untracked-files=no"], capture_output=True, text=True).stdout.strip():
+    if subprocess.run(["git", "-C", REPO, "status", "--porcelain", "--untracked-files=no"], capture_output=True, text=True).stdout.strip():
         print("refusing: /repo has local modifications")
         return 2
     rows = []
     for m in M:
         if want and m["property"] not in want and m["id"].upper() not in want:
             continue
-        path = os.path.join("/repo", m["file"])
+        path = os.path.join(REPO, m["file"])
         s = open(path).read()
         if s.count(m["old"]) != 1:
             rows.append((m, "NOT-APPLICABLE (pattern count %d)" % s.count(m["old"]), ""))
@@ -35,13 +38,13 @@ def main():
             verdicts = []
             for c in checks:
                 p = subprocess.run(["/venv/bin/python", os.path.join(VERIF, "check.py"), c, "--tier", "quick", "--no-evidence"],
-                                   capture_output=True, text=True, cwd=VERIF)
+                                   capture_output=True, text=True, cwd=VERIF, env=ENV)
                 v = [l for l in p.stdout.splitlines() if l.startswith("VIOLATION")]
                 verdicts.append("%s: %s" % (c, "CAUGHT (" + v[0].split("#", 1)[-1].strip()[:110] + ")" if p.returncode == 1 and v else
                                             ("harness error" if p.returncode == 2 else "missed")))
             rows.append((m, "; ".join(verdicts), ""))
         finally:
-            subprocess.run(["git", "-C", "/repo", "checkout", "--", "."], check=True)
+            subprocess.run(["git", "-C", REPO, "checkout", "--", "."], check=True)
             for f in glob.glob(os.path.join(VERIF, "replay", "*", "viol-*.json")):
                 os.remove(f)
         print(m["id"], rows[-1][1], flush=True)
